@@ -33,7 +33,7 @@ SentFor(sc) == IF sc.fr \in {"drop", "bodyless"} THEN 0
 
 \* does the caller's op pull the whole framed body (incl. the chunked terminator) off the response?
 ConsumesAll(sc, op) ==
-    \/ op.kind \in {"preload", "read", "stream", "drain"}
+    \/ op.kind \in {"preload", "read", "stream", "drain", "read1loop"}
     \/ sc.fr = "bodyless"
     \/ op.kind = "readk" /\ sc.fr = "cl" /\ op.k >= sc.len
     \/ op.kind = "readk" /\ sc.fr = "chunked" /\ op.k > sc.len
